@@ -260,6 +260,21 @@ def gen_elements(ctx, n):
     return out
 
 
+def gen_number_walks(ctx):
+    out = []
+    ctxs = ["/", "/*", "//a[2]", "//b[1]", "//a[1]/@n", "//a[1]/text()", "//comment()", "//processing-instruction()", "//p:e", "/doc/a[3]/c"]
+    for level in ("single", "multiple", "any"):
+        for count in (None, "a", "a|b", "foo", "node()", "@*", "text()"):
+            for frm in (None, "a", "foo", "/", "doc", "node()"):
+                c = ctx.rng.choice(ctxs)
+                attrs = " level='%s'" % level + (" count='%s'" % count if count else "") + (" from='%s'" % frm if frm else "")
+                body = "<xsl:for-each select='%s'>[<xsl:number%s format='1.1'/>]</xsl:for-each>" % (c, attrs)
+                if c == "/":
+                    body = "[<xsl:number%s/>]" % attrs
+                out.append(Case("T", tmpl(body).replace("<xsl:stylesheet ", "<xsl:stylesheet xmlns:p='urn:p' ", 1), cls="number-walk:%s" % level))
+    return out
+
+
 def mutate_bytes(r, data):
     data = bytearray(b_(data))
     for _ in range(r.choice([1, 1, 2, 4])):
@@ -435,7 +450,7 @@ class Runner:
         todo = list(cases)
         while todo:
             lines = [c.line() for c in todo]
-            res, status, last, err = run_proc(self.exe, lines, 30 + self.tmo * len(todo) / 4.0)
+            res, status, last, err = run_proc(self.exe, lines, 60 + self.tmo * len(todo))
             results.update(res)
             if status == "ok":
                 break
@@ -449,7 +464,7 @@ class Runner:
             culprit = pending[0]
             idx = todo.index(culprit)
             kind = "hang" if status == "timeout" else "crash"
-            r1, s1, _, e1 = run_proc(self.exe, [culprit.line()], 20 + 4 * self.tmo)
+            r1, s1, _, e1 = run_proc(self.exe, [culprit.line()], 90 + 4 * self.tmo)
             if s1 != "ok" and culprit.id not in r1:
                 self.events.append((kind if s1 != "timeout" else "hang", culprit, (s1 + " " + report_of(e1 or err)).strip(), [culprit.line()]))
             else:
@@ -457,13 +472,14 @@ class Runner:
                 prefix = todo[:idx]
 
                 def fails(pre):
-                    rr, ss, _, _ = run_proc(self.exe, [c.line() for c in pre] + [culprit.line()], 30 + self.tmo * (len(pre) + 1) / 4.0)
+                    rr, ss, _, _ = run_proc(self.exe, [c.line() for c in pre] + [culprit.line()], 60 + self.tmo * (len(pre) + 1))
                     return ss != "ok" and culprit.id not in rr
                 if fails(prefix):
                     small = core.shrink_list(prefix, fails, max_steps=40)
                     self.events.append((kind + "-with-history", culprit, status + " " + report_of(err), [c.line() for c in small] + [culprit.line()]))
                 else:
                     self.events.append((kind + "-not-reproduced", culprit, status + " " + report_of(err), lines[:idx + 1]))
+                    results.update(r1)
             todo = todo[idx + 1:]
         return results
 
@@ -542,6 +558,7 @@ def build_cases(ctx, scale):
     cases += gen_numbers(ctx, exps)
     cases += gen_ladders(ctx, depths, fn_depths)
     cases += gen_long(ctx, sizes)
+    cases += gen_number_walks(ctx)
     cases += gen_unicode(ctx, (40 if not ctx.thorough else 600) * scale)
     cases += gen_elements(ctx, (150 if not ctx.thorough else 4000) * scale)
     cases += gen_mutations(ctx, (170 if not ctx.thorough else 6000) * scale)
@@ -570,6 +587,10 @@ def evaluate(ctx, exe, cases, batch_size=40, per_case_timeout=4):
     results, events = run_cases(ctx, exe, cases, batch_size, per_case_timeout)
     failures = []     # (kind, case or None, text, replay lines, known key or None)
     for kind, c, detail, replay in events:
+        if kind.endswith("-not-reproduced"):
+            # a batch ended early but neither the case alone nor the batch prefix reproduces it (machine load): recorded, not judged
+            ctx.notes.setdefault("not_reproduced", []).append("%s %s %s" % (kind, c.cls if c else "-", detail[:120]))
+            continue
         failures.append((kind, c, detail, replay, c.known if c is not None else None))
     status_hist = {}
     for c in cases:
